@@ -398,9 +398,11 @@ def configs_for(prop, tier):
         if q:
             return base
         return base + [
-            dict(name="clone-r5", maxrefs=5, nkeys=1, maxlen=2, scalars=[("int", 1)],
-                 ops=["NewList", "NewObject", "Clone", "CloneO", "Add", "Pop", "Set", "Unset"],
-                 conc=["plain"], obs="equals", depth=4, walks=200000, walklen=30, tlc_timeout=1500, budget="10m"),
+            # (measured: five cells, or four cells with two keys / three elements, do not finish within 25 minutes; the thorough
+            # tier walks the four-cell graph deeper instead)
+            dict(name="clone-r4-deep", maxrefs=4, nkeys=1, maxlen=1, scalars=[("int", 1)],
+                 ops=["NewList", "NewObject", "Clone", "CloneO", "Add", "Replace", "Pop", "Set", "Unset", "SetTF", "UnsetTF"],
+                 tfkeys=1, tfidx=0, tflen=2, conc=["tf", "long"], obs="equals,getters", depth=4, walks=200000, walklen=40, budget="10m"),
         ]
     if prop == "C09":
         LOPS = ["Add", "Pop", "Delete", "Insert", "Replace", "Clear", "Sort", "Reverse", "Concat", "SubList", "FilterAll", "MapId", "Slice", "GoSet", "GoAppend"]
@@ -489,7 +491,7 @@ def configs_for(prop, tier):
             dict(name="native-alias-r6", maxrefs=6, buildrefs=3, nkeys=1, maxlen=2, scalars=[("int", 1)],
                  ops=["NewList", "NewListOf", "NewObject", "NativeSlice", "NativeDict"],
                  conc=["plain"], obs="getters", depth=4, walks=20000, walklen=10),
-            dict(name="native-r4", maxrefs=4, nkeys=1, maxlen=2, scalars=[("int", 1), ("nil", 0)], ops=NO,
+            dict(name="native-r4", maxrefs=4, buildrefs=3, nkeys=1, maxlen=2, scalars=[("int", 1)], slack=0, ops=NO,
                  conc=["plain"], obs="getters", depth=3, walks=200000, walklen=30, tlc_timeout=1800, budget="12m"),
         ]
     if prop == "C19":
